@@ -178,7 +178,11 @@ func minimise(run runFn, streams map[string][]uint32, want Violation, maxExec in
 	// pass 2: per stream, truncate then zero blocks by halving
 	for _, k := range keys() {
 		vals := cur[k]
-		for n := len(vals) / 2; n >= 1 && execs < maxExec; n /= 2 {
+		start := len(vals) / 2
+		if start < 1 {
+			start = 1
+		}
+		for n := start; n >= 1 && execs < maxExec; n /= 2 {
 			for lo := 0; lo+n <= len(cur[k]) && execs < maxExec; lo += n {
 				allZero := true
 				for _, v := range cur[k][lo : lo+n] {
@@ -278,7 +282,12 @@ func sweepJobs(t *testing.T, prop, tier string, seed uint64, maxScans, maxJobs i
 		slash, hash := strings.Index(key, "/"), strings.LastIndex(key, "#")
 		op := key[slash+1 : hash]
 		kinds := append([]string{}, faultsByOp[op]...)
-		kinds = append(kinds, FCrashBefore)
+		if strings.HasPrefix(op, OpDescribeInst) {
+			op = OpDescribeInst
+			kinds = append([]string{}, faultsByOp[op]...)
+		} else {
+			kinds = append(kinds, FCrashBefore)
+		}
 		if isMutating(op) {
 			kinds = append(kinds, FCrashAfter)
 		}
